@@ -1853,10 +1853,13 @@ public:
         case Token::MINUS: result = static_cast<unsigned>(LHS->getValue()) - static_cast<unsigned>(RHS->getValue()); break;
         case Token::EQ:    result = LHS->getValue() == RHS->getValue(); break;
         case Token::NE:    result = LHS->getValue() != RHS->getValue(); break;
-        case Token::LS:    result = LHS->getValue() <  RHS->getValue(); break;
-        case Token::LE:    result = LHS->getValue() <= RHS->getValue(); break;
-        case Token::GR:    result = LHS->getValue() >  RHS->getValue(); break;
-        case Token::GE:    result = LHS->getValue() >= RHS->getValue(); break;
+        // The generated code evaluates LHS < RHS as (LHS - RHS) < 0 with a
+        // subtraction that wraps around, and the other relational operators
+        // are rewritten in terms of <, so fold them in the same way.
+        case Token::LS:    result = lessThan(LHS->getValue(), RHS->getValue()); break;
+        case Token::LE:    result = !lessThan(RHS->getValue(), LHS->getValue()); break;
+        case Token::GR:    result = lessThan(RHS->getValue(), LHS->getValue()); break;
+        case Token::GE:    result = !lessThan(LHS->getValue(), RHS->getValue()); break;
         case Token::AND:   result = LHS->getValue() == 0 ? 0 : (RHS->getValue() == 0 ? 0 : 1); break;
         case Token::OR:    result = LHS->getValue() != 0 ? 1 : (RHS->getValue() == 0 ? 0 : 1); break;
         default:
@@ -1864,6 +1867,10 @@ public:
       }
       expr.setValue(result);
     }
+  }
+  /// LHS < RHS as it is evaluated at run time: the sign of the wrapped difference.
+  static bool lessThan(int LHS, int RHS) {
+    return static_cast<int>(static_cast<unsigned>(LHS) - static_cast<unsigned>(RHS)) < 0;
   }
   void visitPost(UnaryOpExpr &expr) {
     auto &element = expr.getElement();
